@@ -33,8 +33,8 @@ theorem Inv04.step {mi : Nat} {s t : Fw σ} (hI : Inv04 s) (h : Step mi s t) : I
   | setCtrA => exact hI.slots i a (by simpa using hia)
   | setCtrB => exact hI.slots i a (by simpa using hia)
   | signal => exact hI.slots i a hia
-  | zeroA => exact hI.slots i a hia
-  | zeroB => exact hI.slots i a hia
+  | zeroA => exact hI.slots i a (by simpa using hia)
+  | zeroB => exact hI.slots i a (by simpa using hia)
   | clear hlen =>
     rcases set_getElem?_some _ _ _ _ _ hia with ⟨_, h2⟩ | ⟨_, h2⟩
     · cases h2
@@ -65,7 +65,7 @@ theorem Inv04.prim {s t : Fw σ} (hI : Inv04 s) (h : Prim s t) : Inv04 t := by
     have := hI.slots i a (by simpa using hia)
     simpa using this
   | callStart t =>
-    refine ⟨by simpa [Fw.callStart] using hI.actLen, hI.rtLen, ?_⟩
+    refine ⟨by simpa [Fw.callStart] using hI.actLen, by simpa [Fw.callStart] using hI.rtLen, ?_⟩
     intro i a hia
     exfalso
     change (List.map (fun _ => (none : Option TAction)) s.actions)[i]? = some (some a) at hia
